@@ -133,3 +133,650 @@ Proof.
   intros t cs s0 Hk Hi Hc. rewrite dom_write_thunks, Hk, Hi. cbn [negb].
   unfold tree_calls in Hc. rewrite (run_collect _ _ s0 Hc). reflexivity.
 Qed.
+
+(* ================================================================================================ *)
+(* Part 2: the DOM reader rebuilds the normalised tree from the expected records *)
+
+Lemma byte_eqb_refl : forall a, byte_eqb a a = true.
+Proof. intro a. unfold byte_eqb. apply byte_dec_lb. reflexivity. Qed.
+Lemma beq_refl : forall a, beq a a = true.
+Proof. induction a as [|x a IH]; [reflexivity|]. cbn. rewrite byte_eqb_refl. exact IH. Qed.
+Lemma beq_true_eq : forall a b, beq a b = true -> a = b.
+Proof.
+  induction a as [|x a IH]; destruct b as [|y b]; cbn; intro H; try discriminate; [reflexivity|].
+  apply andb_true_iff in H. destruct H as [H1 H2]. apply byte_dec_bl in H1. subst y. f_equal. apply IH. exact H2.
+Qed.
+
+Lemma byte_n_n_byte : forall c, (c < 256)%N -> byte_n (n_byte c) = c.
+Proof.
+  intros c H. unfold byte_n, n_byte. destruct (Byte.of_N c) as [b|] eqn:E.
+  - apply Byte.to_of_N. exact E.
+  - apply Byte.of_N_None_iff in E. lia.
+Qed.
+
+Lemma ascii_text_bytes : forall t, forallb (fun c => N.ltb c 256) t = true -> ascii_text (text_bytes t) = t.
+Proof.
+  induction t as [|c t IH]; cbn [forallb]; intro H; [reflexivity|].
+  apply andb_true_iff in H. destruct H as [H1 H2]. apply N.ltb_lt in H1.
+  unfold ascii_text, text_bytes in *. cbn [map]. rewrite byte_n_n_byte by exact H1. f_equal. apply IH. exact H2.
+Qed.
+
+Lemma hval_str : forall t, str_ok t = true -> hval (WStr t) = Some (VStr (text_bytes t)) /\ ascii_text (text_bytes t) = t.
+Proof.
+  intros t H. unfold str_ok in H. apply andb_true_iff in H. destruct H as [H1 H2].
+  split; [|apply ascii_text_bytes; exact H1].
+  cbn [hval]. unfold convert_value. apply negb_true_iff in H2. rewrite H2. reflexivity.
+Qed.
+
+(* a value that is absent or well typed *)
+Definition ov_ok (v : wv) : Prop := v = WNone \/ hv_ok v = true.
+
+Lemma dopts_of_hopts : forall l, Forall (fun p => ov_ok (snd p)) l -> dopts_of_options (hopts l) = present l.
+Proof.
+  induction l as [|[k v] l IH]; intro H; [reflexivity|].
+  inversion H as [|? ? Hv Hl]; subst. cbn [snd] in Hv.
+  unfold hopts, present in *. cbn [flat_map filter snd fst]. unfold dopts_of_options in *. rewrite map_app.
+  rewrite (IH Hl). destruct Hv as [->|Hv]; [reflexivity|].
+  destruct v; try discriminate Hv; cbn [hv_ok] in Hv.
+  - reflexivity.
+  - destruct (hval_str t Hv) as [E1 E2]. rewrite E1. cbn [map fst snd wv_of_pv app]. rewrite E2. reflexivity.
+Qed.
+
+Lemma assoc_del_hopts : forall k l, assoc_del beq k (hopts l) = hopts (assoc_del beq k l).
+Proof.
+  intros k. induction l as [|[k' v] l IH]; [reflexivity|].
+  unfold hopts in *. cbn [flat_map assoc_del fst snd].
+  destruct (beq k k') eqn:E.
+  - destruct (hval v) as [p|]; cbn [app assoc_del]; rewrite ?E; exact IH.
+  - cbn [flat_map fst snd]. destruct (hval v) as [p|]; cbn [app assoc_del]; rewrite ?E, IH; reflexivity.
+Qed.
+
+(* ---- typed option dicts ---- *)
+Lemma typed_get : forall o k v, typed_opts o = true -> assoc_get beq k o = Some v -> hv_ok v = true.
+Proof.
+  induction o as [|[k' v'] o IH]; intros k v H G; [discriminate|].
+  cbn [typed_opts forallb snd] in H. apply andb_true_iff in H. destruct H as [H1 H2].
+  cbn [assoc_get] in G. destruct (beq k k'); [injection G as <-; exact H1 | exact (IH _ _ H2 G)].
+Qed.
+
+Lemma kw_ok : forall o k, typed_opts o = true -> ov_ok (kw o k).
+Proof.
+  intros o k H. unfold kw. destruct (assoc_get beq (B k) o) eqn:G; [right; exact (typed_get _ _ _ H G) | left; reflexivity].
+Qed.
+
+Lemma kw_opt_ok : forall o k v, typed_opts o = true -> kw_opt o k = Some v -> hv_ok v = true.
+Proof. intros o k v H G. exact (typed_get _ _ _ H G). Qed.
+
+Lemma typed_assoc_set : forall o k v, hv_ok v = true -> typed_opts o = true -> typed_opts (assoc_set beq k v o) = true.
+Proof.
+  induction o as [|[k' v'] o IH]; intros k v Hv H.
+  - cbn. rewrite Hv. reflexivity.
+  - cbn [typed_opts forallb snd] in H. apply andb_true_iff in H. destruct H as [H1 H2].
+    cbn [assoc_set]. destruct (beq k k'); cbn [typed_opts forallb snd].
+    + rewrite Hv. exact H2.
+    + rewrite H1. apply IH; assumption.
+Qed.
+
+Lemma typed_remap : forall name o, typed_opts o = true -> typed_opts (remap name o) = true.
+Proof.
+  intros name o. unfold remap.
+  assert (G : forall acc, typed_opts acc = true -> typed_opts o = true ->
+              typed_opts (fold_left (fun acc p =>
+                 let k := if beq (fst p) (B "type") && String.eqb name "diff" then B "diff_type"
+                          else if beq (fst p) (B "format") && String.eqb name "meta" then B "meta_format"
+                          else fst p in assoc_set beq k (snd p) acc) o acc) = true).
+  { induction o as [|[k v] o IH]; intros acc Ha H; [exact Ha|].
+    cbn [typed_opts forallb snd] in H. apply andb_true_iff in H. destruct H as [H1 H2].
+    cbn [fold_left]. apply IH; [|exact H2]. apply typed_assoc_set; assumption. }
+  apply G. reflexivity.
+Qed.
+
+Lemma hv_ov : forall v, hv_ok v = true -> ov_ok v.
+Proof. intros v H. right. exact H. Qed.
+
+Lemma le_names_ok : hv_ok (WStr (ascii_text GenText.le_unix)) = true /\ hv_ok (WStr (ascii_text GenText.le_dos)) = true.
+Proof. split; vm_compute; reflexivity. Qed.
+
+Lemma guess_text_fst : forall t, fst (guess_line_endings_text t) = GenText.le_unix \/ fst (guess_line_endings_text t) = GenText.le_dos.
+Proof.
+  intro t. unfold guess_line_endings_text. destruct (find _ _ _); [destruct (suffixb _ _ _)|]; cbn [fst]; auto.
+Qed.
+
+Lemma pre_resolve_ok : forall le t, ov_ok le -> hv_ok (fst (pre_resolve le t)) = true.
+Proof.
+  intros le t H. unfold pre_resolve. destruct (declared_newline le) eqn:D.
+  - cbn [fst]. destruct H as [->|H]; [discriminate D | exact H].
+  - pose proof (guess_text_fst t) as G. destruct (guess_line_endings_text t) as [l nl]. cbn [fst] in *.
+    destruct G as [->| ->]; apply le_names_ok.
+Qed.
+
+Lemma guess_bytes_fst : forall b en p, guess_line_endings_bytes b en = Ok p ->
+  fst p = GenText.le_unix \/ fst p = GenText.le_dos.
+Proof.
+  intros b en p H. unfold guess_line_endings_bytes in H.
+  destruct (py_encode _ _); cbn [bind] in H; [|discriminate].
+  destruct (py_encode _ _); cbn [bind] in H; [|discriminate].
+  destruct (bfind _ _); [destruct (bends _ _)|]; injection H as <-; auto.
+Qed.
+
+(* what the preparation of a diff does, spelled out *)
+Definition diff_newline_encoding (enc : wv) : wv := if wv_truthy enc then enc else WStr (ascii_text (B "ascii")).
+Definition diff_en1 (enc : wv) : option bytes := match enc with WStr e => c_enc ascii e | _ => None end.
+
+Lemma diff_prepare_shape : forall le enc b body lo, diff_prepare le enc b = Ok (body, lo) ->
+  exists nlb,
+    body = (if bends (strip_bom nlb (diff_en1 enc)) b then b else b ++ strip_bom nlb (diff_en1 enc)) /\
+    ((exists nl, declared_newline le = Some nl /\ lo = le /\ encode_dyn nl (diff_newline_encoding enc) = Ok nlb) \/
+     (exists en l, declared_newline le = None /\ enc_name (diff_newline_encoding enc) = Ok en /\
+                   guess_line_endings_bytes b en = Ok (l, nlb) /\ lo = WStr (ascii_text l))).
+Proof.
+  intros le enc b body lo H. unfold diff_prepare, prepare_content in H.
+  destruct (is_nil b); [discriminate|].
+  destruct (match le with WNone => Ok true | _ => _ end) as [[|]|]; cbn [bind negb] in H; try discriminate.
+  rewrite andb_false_r in H. cbn [bind] in H.
+  fold (declared_newline le) in H. fold (diff_newline_encoding enc) in H. fold (diff_en1 enc) in H.
+  destruct (declared_newline le) as [nl|] eqn:D.
+  - destruct (encode_dyn nl _) as [nlb|] eqn:E; cbn [bind] in H; [|discriminate].
+    cbn [wv_truthy] in H. injection H as <- <-. exists nlb. split; [reflexivity|]. left. exists nl. auto.
+  - destruct (enc_name _) as [en|] eqn:E; cbn [bind] in H; [|discriminate].
+    destruct (guess_line_endings_bytes b en) as [[l nlb]|] eqn:G; cbn [bind fst snd] in H; [|discriminate].
+    cbn [wv_truthy] in H. injection H as <- <-. exists nlb. split; [reflexivity|]. right. exists en, l. auto.
+Qed.
+
+Lemma diff_prepared_ok : forall le enc b, ov_ok le -> ov_ok (snd (diff_prepared le enc b)).
+Proof.
+  intros le enc b H. unfold diff_prepared. destruct (diff_prepare le enc b) as [[body lo]|e] eqn:E; [|exact H].
+  cbn [snd]. destruct (diff_prepare_shape _ _ _ _ _ E) as [nlb [_ [[nl [_ [-> _]]]|[en [l [_ [_ [G ->]]]]]]]]; [exact H|].
+  right. destruct (guess_bytes_fst _ _ _ G) as [F|F]; cbn [fst] in F; subst l; apply le_names_ok.
+Qed.
+
+(* preparing a diff does not look at the writer state *)
+Lemma diff_prepare_state : forall s le enc b,
+  prepare_content s (CBytes b) WNone le enc false = diff_prepare le enc b.
+Proof.
+  intros s le enc b. unfold diff_prepare, prepare_content. rewrite !andb_false_r. reflexivity.
+Qed.
+
+(* ---- one record at a time ---- *)
+Lemma set_last_app {A} : forall (f : A -> res A) l x, set_last f (l ++ [x]) = do y <- f x; Ok (l ++ [y]).
+Proof.
+  induction l as [|a l IH]; intro x; cbn [app].
+  - cbn [set_last]. destruct (f x); reflexivity.
+  - destruct (l ++ [x]) as [|b l0] eqn:E; [destruct l; discriminate|].
+    cbn [set_last]. change (match l0 with [] => do y <- f b; Ok [y] | _ :: _ => do t' <- set_last f l0; Ok (b :: t') end)
+      with (set_last f (b :: l0)).
+    rewrite <- E, IH. destruct (f x); reflexivity.
+Qed.
+
+Definition T (o : dopts) (p : psec) (m : msec) (cs : list dchange) : dtree :=
+  {| d_opts := o; d_pre := p; d_meta := m; d_changes := cs |}.
+Definition Ch (o : dopts) (p : psec) (m : msec) (fs : list dfile) : dchange :=
+  {| c_opts := o; c_pre := p; c_meta := m; c_files := fs |}.
+Definition Fi (o : dopts) (m : msec) (d : dsec) : dfile := {| f_opts := o; f_meta := m; f_diff := d |}.
+Definition P (o : dopts) (c : option text) : psec := {| p_opts := o; p_content := c |}.
+Definition Me (o : dopts) (c : list (text * json)) : msec := {| m_opts := o; m_content := c |}.
+Definition D (o : dopts) (c : option bytes) : dsec := {| x_opts := o; x_content := c |}.
+
+Lemma A_main : forall t cur o p,
+  apply_record (t, cur) (view_record (GenSections.sec_main, o, p)) =
+  Ok (T (dopts_of_options o) (d_pre t) (d_meta t) (d_changes t), AtMain).
+Proof. reflexivity. Qed.
+
+Lemma A_pre_main : forall O p M cs o txt,
+  apply_record (T O p M cs, AtMain) (view_record (build_id 1 (B "preamble"), o, PText txt)) =
+  Ok (T O (P (content_options o) (Some txt)) M cs, AtMain).
+Proof. reflexivity. Qed.
+
+Lemma A_meta_main : forall O p M cs o kv,
+  apply_record (T O p M cs, AtMain) (view_record (build_id 1 (B "meta"), o, PMeta (JObj kv))) =
+  Ok (T O p (Me (content_options o) kv) cs, AtMain).
+Proof. reflexivity. Qed.
+
+Lemma A_pre_change : forall O p M cs co cp cm fs o txt,
+  apply_record (T O p M (cs ++ [Ch co cp cm fs]), AtChange) (view_record (build_id 2 (B "preamble"), o, PText txt)) =
+  Ok (T O p M (cs ++ [Ch co (P (content_options o) (Some txt)) cm fs]), AtChange).
+Proof.
+  intros. unfold apply_record, view_record, T. cbn [r_id r_opts r_payload d_changes d_opts d_pre d_meta].
+  change (beq (build_id 2 (B "preamble")) GenSections.sec_main) with false.
+  change (beq (build_id 2 (B "preamble")) GenSections.sec_change) with false.
+  change (beq (build_id 2 (B "preamble")) GenSections.sec_file) with false.
+  cbv iota. rewrite set_last_app. reflexivity.
+Qed.
+
+Lemma A_meta_change : forall O p M cs co cp cm fs o kv,
+  apply_record (T O p M (cs ++ [Ch co cp cm fs]), AtChange) (view_record (build_id 2 (B "meta"), o, PMeta (JObj kv))) =
+  Ok (T O p M (cs ++ [Ch co cp (Me (content_options o) kv) fs]), AtChange).
+Proof.
+  intros. unfold apply_record, view_record, T. cbn [r_id r_opts r_payload d_changes d_opts d_pre d_meta].
+  change (beq (build_id 2 (B "meta")) GenSections.sec_main) with false.
+  change (beq (build_id 2 (B "meta")) GenSections.sec_change) with false.
+  change (beq (build_id 2 (B "meta")) GenSections.sec_file) with false.
+  cbv iota. rewrite set_last_app. reflexivity.
+Qed.
+
+Lemma A_meta_file : forall O p M cs co cp cm fs fo fm fd o kv,
+  apply_record (T O p M (cs ++ [Ch co cp cm (fs ++ [Fi fo fm fd])]), AtFile)
+               (view_record (build_id 3 (B "meta"), o, PMeta (JObj kv))) =
+  Ok (T O p M (cs ++ [Ch co cp cm (fs ++ [Fi fo (Me (content_options o) kv) fd])]), AtFile).
+Proof.
+  intros. unfold apply_record, view_record, T. cbn [r_id r_opts r_payload d_changes d_opts d_pre d_meta].
+  change (beq (build_id 3 (B "meta")) GenSections.sec_main) with false.
+  change (beq (build_id 3 (B "meta")) GenSections.sec_change) with false.
+  change (beq (build_id 3 (B "meta")) GenSections.sec_file) with false.
+  cbv iota. rewrite set_last_app. unfold Ch. cbn [bind c_files c_opts c_pre c_meta]. rewrite set_last_app. reflexivity.
+Qed.
+
+Lemma A_diff_file : forall O p M cs co cp cm fs fo fm fd o b,
+  apply_record (T O p M (cs ++ [Ch co cp cm (fs ++ [Fi fo fm fd])]), AtFile)
+               (view_record (build_id 3 (B "diff"), o, PBytes b)) =
+  Ok (T O p M (cs ++ [Ch co cp cm (fs ++ [Fi fo fm (D (content_options o) (Some b))])]), AtFile).
+Proof.
+  intros. unfold apply_record, view_record, T. cbn [r_id r_opts r_payload d_changes d_opts d_pre d_meta].
+  change (beq (build_id 3 (B "diff")) GenSections.sec_main) with false.
+  change (beq (build_id 3 (B "diff")) GenSections.sec_change) with false.
+  change (beq (build_id 3 (B "diff")) GenSections.sec_file) with false.
+  change (beq (build_id 3 (B "diff")) GenSections.sec_file_diff) with true.
+  cbv iota. rewrite set_last_app. unfold Ch. cbn [bind c_files c_opts c_pre c_meta]. rewrite set_last_app. reflexivity.
+Qed.
+
+(* a container header: encoding absent or a str *)
+Definition cv_ok (e : wv) : Prop := e = WNone \/ sv_ok e = true.
+
+Lemma container_opts : forall e, cv_ok e ->
+  dopts_of_options (hopts [(B "encoding", e)]) = present [(B "encoding", e)] /\
+  (present [(B "encoding", e)] = [] \/ exists t, present [(B "encoding", e)] = [(B "encoding", WStr t)]).
+Proof.
+  intros e H. split.
+  - apply dopts_of_hopts. constructor; [|constructor]. cbn [snd]. destruct H as [->|H]; [left; reflexivity|].
+    right. destruct e; try discriminate H. exact H.
+  - destruct H as [->|H]; [left; reflexivity|]. destruct e; try discriminate H. right. exists t. reflexivity.
+Qed.
+
+Lemma A_change : forall O p M cs cur e pl, cv_ok e ->
+  apply_record (T O p M cs, cur) (view_record (GenSections.sec_change, hopts [(B "encoding", e)], pl)) =
+  Ok (T O p M (cs ++ [Ch (present [(B "encoding", e)]) new_psec new_msec []]), AtChange).
+Proof.
+  intros O p M cs cur e pl H. destruct (container_opts e H) as [E1 E2].
+  unfold apply_record, view_record. cbn [r_id r_opts r_payload]. rewrite E1.
+  destruct E2 as [-> | [t ->]]; reflexivity.
+Qed.
+
+Lemma A_file : forall O p M cs co cp cm fs cur e pl, cv_ok e ->
+  apply_record (T O p M (cs ++ [Ch co cp cm fs]), cur) (view_record (GenSections.sec_file, hopts [(B "encoding", e)], pl)) =
+  Ok (T O p M (cs ++ [Ch co cp cm (fs ++ [Fi (present [(B "encoding", e)]) new_msec new_dsec])]), AtFile).
+Proof.
+  intros O p M cs co cp cm fs cur e pl H. destruct (container_opts e H) as [E1 E2].
+  unfold apply_record, view_record. cbn [r_id r_opts r_payload]. rewrite E1.
+  change (beq GenSections.sec_file GenSections.sec_main) with false.
+  change (beq GenSections.sec_file GenSections.sec_change) with false.
+  change (beq GenSections.sec_file GenSections.sec_file) with true.
+  cbv iota. unfold T. cbn [d_changes d_opts d_pre d_meta].
+  destruct E2 as [-> | [t ->]].
+  - change (has_slot_key []) with false. cbv iota.
+    change (to_parse (apply_attrs set_file_attr new_file [])) with (Ok new_file). cbn [bind].
+    rewrite set_last_app. reflexivity.
+  - change (has_slot_key [(B "encoding", WStr t)]) with false. cbv iota.
+    change (to_parse (apply_attrs set_file_attr new_file [(B "encoding", WStr t)]))
+      with (Ok (Fi [(B "encoding", WStr t)] new_msec new_dsec)). cbn [bind].
+    rewrite set_last_app. reflexivity.
+Qed.
+
+(* ---- what each content section contributes: its call, the expected view, and the normalised section ---- *)
+Lemma content_hopts : forall l l', assoc_del beq (B "length") l = l' -> Forall (fun p => ov_ok (snd p)) l' ->
+  content_options (hopts l) = present l'.
+Proof. intros l l' E H. unfold content_options. rewrite assoc_del_hopts, E. apply dopts_of_hopts. exact H. Qed.
+
+Ltac forall_ok := repeat (first [apply Forall_nil | apply Forall_cons]); cbn [snd].
+
+Definition olist (oc : option call) : list call := match oc with Some c => [c] | None => [] end.
+
+Lemma indent_default_ok : forall o, typed_opts o = true -> ov_ok (indent_or_default (kw_opt o "indent")).
+Proof.
+  intros o H. destruct (kw_opt o "indent") as [v|] eqn:E; cbn [indent_or_default]; right;
+    [exact (kw_opt_ok _ _ _ H E) | reflexivity].
+Qed.
+
+Lemma format_default_ok : forall o, typed_opts o = true -> ov_ok (format_or_default (kw_opt o "meta_format")).
+Proof.
+  intros o H. destruct (kw_opt o "meta_format") as [v|] eqn:E; cbn [format_or_default]; right;
+    [exact (kw_opt_ok _ _ _ H E) | vm_compute; reflexivity].
+Qed.
+
+Lemma pre_view : forall p oc, typed_opts (p_opts p) = true -> call_preamble p = Ok oc ->
+  match oc with
+  | None => norm_psec p = new_psec
+  | Some c => forall s cur, exists o txt,
+      expected_view s cur c = (build_id (cur_dots cur) (B "preamble"), o, PText txt) /\
+      norm_psec p = P (content_options o) (Some txt) /\ next_cursor cur c = cur
+  end.
+Proof.
+  intros [o ct] oc Ht H. unfold call_preamble in H. unfold norm_psec. cbn [p_content p_opts] in *.
+  destruct ct as [t|]; [|injection H as <-; reflexivity].
+  destruct (is_nil t); [injection H as <-; reflexivity|].
+  destruct (negb (only_keys o _)); [discriminate|]. injection H as <-.
+  intros s cur. cbn [expected_view].
+  pose proof (pre_resolve_ok (kw o "line_endings") t (kw_ok o "line_endings" Ht)) as Hle.
+  destruct (pre_resolve (kw o "line_endings") t) as [le nl]. cbn [fst] in Hle.
+  eexists. eexists. split; [reflexivity|]. split; [|reflexivity]. unfold P. f_equal.
+  symmetry. apply content_hopts; [reflexivity|].
+  forall_ok; [apply kw_ok | apply indent_default_ok | right | apply kw_ok]; assumption.
+Qed.
+
+Lemma meta_view : forall m oc, typed_opts (m_opts m) = true -> call_meta m = Ok oc ->
+  match oc with
+  | None => norm_msec m = new_msec
+  | Some c => forall s cur, exists o,
+      expected_view s cur c = (build_id (cur_dots cur) (B "meta"), o, PMeta (JObj (m_content m))) /\
+      norm_msec m = Me (content_options o) (m_content m) /\ next_cursor cur c = cur
+  end.
+Proof.
+  intros [o ct] oc Ht H. unfold call_meta in H. unfold norm_msec. cbn [m_content m_opts] in *.
+  destruct (is_nil ct); [injection H as <-; reflexivity|].
+  destruct (negb (only_keys _ _)); [discriminate|]. injection H as <-.
+  intros s cur. cbn [expected_view].
+  eexists. split; [reflexivity|]. split; [|reflexivity]. unfold Me. f_equal.
+  symmetry. apply content_hopts; [reflexivity|].
+  pose proof (typed_remap "meta" o Ht) as Hr.
+  forall_ok; [apply kw_ok | apply format_default_ok]; assumption.
+Qed.
+
+Lemma diff_view : forall d oc, typed_opts (x_opts d) = true -> call_diff d = Ok oc ->
+  match oc with
+  | None => norm_dsec d = new_dsec
+  | Some c => forall s cur, exists o body,
+      expected_view s cur c = (build_id (cur_dots cur) (B "diff"), o, PBytes body) /\
+      norm_dsec d = D (content_options o) (Some body) /\ next_cursor cur c = cur
+  end.
+Proof.
+  intros [o ct] oc Ht H. unfold call_diff in H. unfold norm_dsec. cbn [x_content x_opts] in *.
+  destruct ct as [b|]; [|injection H as <-; reflexivity].
+  destruct (is_nil b); [injection H as <-; reflexivity|].
+  destruct (negb (only_keys _ _)); [discriminate|]. injection H as <-.
+  intros s cur. cbn [expected_view].
+  pose proof (typed_remap "diff" o Ht) as Hr.
+  pose proof (diff_prepared_ok (kw (remap "diff" o) "line_endings") (kw (remap "diff" o) "encoding") b
+                (kw_ok _ "line_endings" Hr)) as Hle.
+  destruct (diff_prepared _ _ b) as [body le]. cbn [snd] in Hle.
+  eexists. eexists. split; [reflexivity|]. split; [|reflexivity]. unfold D. f_equal.
+  symmetry. apply content_hopts; [reflexivity|].
+  forall_ok; [apply kw_ok | | apply kw_ok]; assumption.
+Qed.
+
+(* ---- building the tree: [builds cs cur t t'] = the expected records of [cs], read with the cursor at [cur]
+   into [t], give [t'] (whatever the writer state was: it only determines the [length] values) ---- *)
+Definition builds (cs : list call) (cur : cursor) (t t' : dtree) : Prop :=
+  forall s, apply_views (t, cur) (expected_views s cur cs) = Ok (t', last_cursor cur cs).
+
+Lemma builds_nil : forall cur t, builds [] cur t t.
+Proof. intros cur t s. reflexivity. Qed.
+
+Lemma builds_cons : forall c cs cur t t1 t2,
+  (forall s, apply_record (t, cur) (view_record (expected_view s cur c)) = Ok (t1, next_cursor cur c)) ->
+  builds cs (next_cursor cur c) t1 t2 -> builds (c :: cs) cur t t2.
+Proof.
+  intros c cs cur t t1 t2 H1 H2 s. unfold apply_views. cbn [expected_views map apply_records last_cursor].
+  rewrite H1. cbn [bind]. apply H2.
+Qed.
+
+Definition state_after (s : wstate) (cs : list call) : wstate := fold_left (fun s c => fst (do_call c s)) cs s.
+
+Lemma expected_views_app : forall a b s cur,
+  expected_views s cur (a ++ b) = expected_views s cur a ++ expected_views (state_after s a) (last_cursor cur a) b.
+Proof.
+  induction a as [|c a IH]; intros b s cur; [reflexivity|].
+  cbn [app expected_views last_cursor]. rewrite IH. reflexivity.
+Qed.
+
+Lemma last_cursor_app : forall a b cur, last_cursor cur (a ++ b) = last_cursor (last_cursor cur a) b.
+Proof. induction a as [|c a IH]; intros b cur; [reflexivity|]. cbn [app last_cursor]. apply IH. Qed.
+
+Lemma apply_views_app : forall x y tc, apply_views tc (x ++ y) = do tc' <- apply_views tc x; apply_views tc' y.
+Proof.
+  unfold apply_views. induction x as [|v x IH]; intros y tc; [reflexivity|].
+  cbn [app map apply_records]. destruct (apply_record tc (view_record v)) as [tc1|e]; cbn [bind]; [apply IH | reflexivity].
+Qed.
+
+Lemma builds_app : forall a b cur t t1 t2,
+  builds a cur t t1 -> builds b (last_cursor cur a) t1 t2 -> builds (a ++ b) cur t t2.
+Proof.
+  intros a b cur t t1 t2 H1 H2 s. rewrite expected_views_app, apply_views_app, (H1 s). cbn [bind].
+  rewrite last_cursor_app. apply H2.
+Qed.
+
+Lemma builds_one : forall c cur t t',
+  (forall s, apply_record (t, cur) (view_record (expected_view s cur c)) = Ok (t', next_cursor cur c)) ->
+  builds [c] cur t t'.
+Proof. intros c cur t t' H. eapply builds_cons; [exact H | apply builds_nil]. Qed.
+
+(* a content section at a given place: [set] puts the normalised section in place *)
+Lemma B_pre_main : forall O M cs p oc, typed_opts (p_opts p) = true -> call_preamble p = Ok oc ->
+  builds (olist oc) AtMain (T O new_psec M cs) (T O (norm_psec p) M cs) /\ last_cursor AtMain (olist oc) = AtMain.
+Proof.
+  intros O M cs p oc Ht H. pose proof (pre_view p oc Ht H) as V. destruct oc as [c|]; cbn [olist].
+  - split.
+    + apply builds_one. intro s. destruct (V s AtMain) as [o [txt [E1 [E2 E3]]]]. rewrite E1, E2, E3. apply A_pre_main.
+    + cbn [last_cursor]. destruct (V no_state AtMain) as [o [txt [_ [_ E3]]]]. exact E3.
+  - rewrite V. split; [apply builds_nil | reflexivity].
+Qed.
+
+Lemma B_meta_main : forall O P0 cs m oc, typed_opts (m_opts m) = true -> call_meta m = Ok oc ->
+  builds (olist oc) AtMain (T O P0 new_msec cs) (T O P0 (norm_msec m) cs) /\ last_cursor AtMain (olist oc) = AtMain.
+Proof.
+  intros O P0 cs m oc Ht H. pose proof (meta_view m oc Ht H) as V. destruct oc as [c|]; cbn [olist].
+  - split.
+    + apply builds_one. intro s. destruct (V s AtMain) as [o [E1 [E2 E3]]]. rewrite E1, E2, E3. apply A_meta_main.
+    + cbn [last_cursor]. destruct (V no_state AtMain) as [o [_ [_ E3]]]. exact E3.
+  - rewrite V. split; [apply builds_nil | reflexivity].
+Qed.
+
+Lemma B_pre_change : forall O P0 M cs co cm fs p oc, typed_opts (p_opts p) = true -> call_preamble p = Ok oc ->
+  builds (olist oc) AtChange (T O P0 M (cs ++ [Ch co new_psec cm fs])) (T O P0 M (cs ++ [Ch co (norm_psec p) cm fs]))
+  /\ last_cursor AtChange (olist oc) = AtChange.
+Proof.
+  intros O P0 M cs co cm fs p oc Ht H. pose proof (pre_view p oc Ht H) as V. destruct oc as [c|]; cbn [olist].
+  - split.
+    + apply builds_one. intro s. destruct (V s AtChange) as [o [txt [E1 [E2 E3]]]]. rewrite E1, E2, E3. apply A_pre_change.
+    + cbn [last_cursor]. destruct (V no_state AtChange) as [o [txt [_ [_ E3]]]]. exact E3.
+  - rewrite V. split; [apply builds_nil | reflexivity].
+Qed.
+
+Lemma B_meta_change : forall O P0 M cs co cp fs m oc, typed_opts (m_opts m) = true -> call_meta m = Ok oc ->
+  builds (olist oc) AtChange (T O P0 M (cs ++ [Ch co cp new_msec fs])) (T O P0 M (cs ++ [Ch co cp (norm_msec m) fs]))
+  /\ last_cursor AtChange (olist oc) = AtChange.
+Proof.
+  intros O P0 M cs co cp fs m oc Ht H. pose proof (meta_view m oc Ht H) as V. destruct oc as [c|]; cbn [olist].
+  - split.
+    + apply builds_one. intro s. destruct (V s AtChange) as [o [E1 [E2 E3]]]. rewrite E1, E2, E3. apply A_meta_change.
+    + cbn [last_cursor]. destruct (V no_state AtChange) as [o [_ [_ E3]]]. exact E3.
+  - rewrite V. split; [apply builds_nil | reflexivity].
+Qed.
+
+Lemma B_meta_file : forall O P0 M cs co cp cm fs fo fd m oc, typed_opts (m_opts m) = true -> call_meta m = Ok oc ->
+  builds (olist oc) AtFile (T O P0 M (cs ++ [Ch co cp cm (fs ++ [Fi fo new_msec fd])]))
+                           (T O P0 M (cs ++ [Ch co cp cm (fs ++ [Fi fo (norm_msec m) fd])]))
+  /\ last_cursor AtFile (olist oc) = AtFile.
+Proof.
+  intros O P0 M cs co cp cm fs fo fd m oc Ht H. pose proof (meta_view m oc Ht H) as V. destruct oc as [c|]; cbn [olist].
+  - split.
+    + apply builds_one. intro s. destruct (V s AtFile) as [o [E1 [E2 E3]]]. rewrite E1, E2, E3. apply A_meta_file.
+    + cbn [last_cursor]. destruct (V no_state AtFile) as [o [_ [_ E3]]]. exact E3.
+  - rewrite V. split; [apply builds_nil | reflexivity].
+Qed.
+
+Lemma B_diff_file : forall O P0 M cs co cp cm fs fo fm d oc, typed_opts (x_opts d) = true -> call_diff d = Ok oc ->
+  builds (olist oc) AtFile (T O P0 M (cs ++ [Ch co cp cm (fs ++ [Fi fo fm new_dsec])]))
+                           (T O P0 M (cs ++ [Ch co cp cm (fs ++ [Fi fo fm (norm_dsec d)])]))
+  /\ last_cursor AtFile (olist oc) = AtFile.
+Proof.
+  intros O P0 M cs co cp cm fs fo fm d oc Ht H. pose proof (diff_view d oc Ht H) as V. destruct oc as [c|]; cbn [olist].
+  - split.
+    + apply builds_one. intro s. destruct (V s AtFile) as [o [body [E1 [E2 E3]]]]. rewrite E1, E2, E3. apply A_diff_file.
+    + cbn [last_cursor]. destruct (V no_state AtFile) as [o [body [_ [_ E3]]]]. exact E3.
+  - rewrite V. split; [apply builds_nil | reflexivity].
+Qed.
+
+(* ---- the call list, piece by piece ---- *)
+Lemma collect_app : forall a b, collect (a ++ b) = do x <- collect a; do y <- collect b; Ok (x ++ y).
+Proof.
+  induction a as [|th a IH]; intro b.
+  - cbn [app collect bind]. destruct (collect b); reflexivity.
+  - destruct th as [[c|]|e]; cbn [app collect]; [|apply IH|reflexivity].
+    rewrite IH. destruct (collect a); cbn [bind]; [|reflexivity]. destruct (collect b); reflexivity.
+Qed.
+
+Lemma typed_kw_cv : forall o k, typed_copts o = true -> cv_ok (kw o k).
+Proof.
+  intros o k H. unfold kw. destruct (assoc_get beq (B k) o) as [v|] eqn:G; [|left; reflexivity]. right.
+  revert G. induction o as [|[k' v'] o IH]; [discriminate|].
+  cbn [typed_copts forallb snd] in H. apply andb_true_iff in H. destruct H as [H1 H2].
+  cbn [assoc_get]. destruct (beq (B k) k'); [intro G; injection G as <-; exact H1 | exact (IH H2)].
+Qed.
+
+Lemma collect_file : forall f cs, collect (file_thunks f) = Ok cs ->
+  exists om od, call_meta (f_meta f) = Ok om /\ call_diff (f_diff f) = Ok od /\
+                cs = [NewFile (kw (f_opts f) "encoding")] ++ olist om ++ olist od.
+Proof.
+  intros f cs H. unfold file_thunks, call_container in H.
+  destruct (negb (only_keys (f_opts f) _)); [discriminate|].
+  change (String.eqb "file" "change") with false in H. cbn [some_call collect] in H.
+  destruct (call_meta (f_meta f)) as [om|]; [|discriminate]. destruct (call_diff (f_diff f)) as [od|]; [|destruct om; discriminate].
+  exists om, od. split; [reflexivity|]. split; [reflexivity|].
+  destruct om, od; cbn [bind collect] in H; injection H as <-; reflexivity.
+Qed.
+
+Lemma B_file : forall O P0 M cs co cp cm fs f fcs cur, typed_file f = true -> collect (file_thunks f) = Ok fcs ->
+  builds fcs cur (T O P0 M (cs ++ [Ch co cp cm fs])) (T O P0 M (cs ++ [Ch co cp cm (fs ++ [norm_file f])])).
+Proof.
+  intros O P0 M cs co cp cm fs f fcs cur Ht H.
+  destruct (collect_file f fcs H) as [om [od [Hm [Hd ->]]]].
+  unfold typed_file in Ht. apply andb_true_iff in Ht. destruct Ht as [Ht Ht3]. apply andb_true_iff in Ht. destruct Ht as [Ht1 Ht2].
+  destruct (B_meta_file O P0 M cs co cp cm fs (norm_copts (f_opts f)) new_dsec _ _ Ht2 Hm) as [Bm Lm].
+  destruct (B_diff_file O P0 M cs co cp cm fs (norm_copts (f_opts f)) (norm_msec (f_meta f)) _ _ Ht3 Hd) as [Bd Ld].
+  cbn [app]. eapply builds_cons.
+  - intro s. cbn [expected_view next_cursor]. apply A_file. apply typed_kw_cv. exact Ht1.
+  - cbn [next_cursor]. eapply builds_app; [exact Bm|]. rewrite Lm. exact Bd.
+Qed.
+
+Lemma B_files : forall O P0 M cs co cp cm fl fs fcs cur, forallb typed_file fl = true ->
+  collect (flat_map file_thunks fl) = Ok fcs ->
+  builds fcs cur (T O P0 M (cs ++ [Ch co cp cm fs])) (T O P0 M (cs ++ [Ch co cp cm (fs ++ map norm_file fl)])).
+Proof.
+  intros O P0 M cs co cp cm. induction fl as [|f fl IH]; intros fs fcs cur Ht H.
+  - cbn in H. injection H as <-. cbn [map]. rewrite app_nil_r. apply builds_nil.
+  - cbn [forallb] in Ht. apply andb_true_iff in Ht. destruct Ht as [Ht1 Ht2].
+    cbn [flat_map] in H. rewrite collect_app in H.
+    destruct (collect (file_thunks f)) as [c1|] eqn:E1; cbn [bind] in H; [|discriminate].
+    destruct (collect (flat_map file_thunks fl)) as [c2|] eqn:E2; cbn [bind] in H; [|discriminate].
+    injection H as <-. eapply builds_app; [apply B_file; eassumption|].
+    cbn [map]. replace (fs ++ norm_file f :: map norm_file fl) with ((fs ++ [norm_file f]) ++ map norm_file fl)
+      by (rewrite <- app_assoc; reflexivity).
+    apply IH; [exact Ht2 | reflexivity].
+Qed.
+
+Lemma collect_change_head : forall c cs, collect (change_thunks c) = Ok cs ->
+  exists op om fcs, call_preamble (c_pre c) = Ok op /\ call_meta (c_meta c) = Ok om /\
+                    collect (flat_map file_thunks (c_files c)) = Ok fcs /\
+                    cs = [NewChange (kw (c_opts c) "encoding")] ++ olist op ++ olist om ++ fcs.
+Proof.
+  intros c cs H. unfold change_thunks in H. rewrite collect_app in H. unfold call_container in H.
+  destruct (negb (only_keys (c_opts c) _)); [discriminate|].
+  change (String.eqb "change" "change") with true in H. cbn [some_call collect] in H.
+  destruct (call_preamble (c_pre c)) as [op|]; [|discriminate].
+  destruct (call_meta (c_meta c)) as [om|]; [|destruct op; discriminate].
+  destruct (collect (flat_map file_thunks (c_files c))) as [fcs|]; [|destruct op, om; discriminate].
+  exists op, om, fcs. repeat (split; [reflexivity|]).
+  destruct op, om; cbn [bind collect] in H; injection H as <-; reflexivity.
+Qed.
+
+Lemma B_change : forall O P0 M cs c ccs cur, typed_change c = true -> collect (change_thunks c) = Ok ccs ->
+  builds ccs cur (T O P0 M cs) (T O P0 M (cs ++ [norm_change c])).
+Proof.
+  intros O P0 M cs c ccs cur Ht H.
+  destruct (collect_change_head c ccs H) as [op [om [fcs [Hp [Hm [Hf ->]]]]]].
+  unfold typed_change in Ht. apply andb_true_iff in Ht. destruct Ht as [Ht Ht4]. apply andb_true_iff in Ht.
+  destruct Ht as [Ht Ht3]. apply andb_true_iff in Ht. destruct Ht as [Ht1 Ht2].
+  destruct (B_pre_change O P0 M cs (norm_copts (c_opts c)) new_msec [] _ _ Ht2 Hp) as [Bp Lp].
+  destruct (B_meta_change O P0 M cs (norm_copts (c_opts c)) (norm_psec (c_pre c)) [] _ _ Ht3 Hm) as [Bm Lm].
+  pose proof (B_files O P0 M cs (norm_copts (c_opts c)) (norm_psec (c_pre c)) (norm_msec (c_meta c)) _ [] fcs AtChange Ht4 Hf) as Bf.
+  cbn [app]. eapply builds_cons.
+  - intro s. cbn [expected_view next_cursor]. apply A_change. apply typed_kw_cv. exact Ht1.
+  - cbn [next_cursor]. eapply builds_app; [exact Bp|]. rewrite Lp. eapply builds_app; [exact Bm|]. rewrite Lm. exact Bf.
+Qed.
+
+Lemma B_changes : forall O P0 M cl cs ccs cur, forallb typed_change cl = true ->
+  collect (flat_map change_thunks cl) = Ok ccs ->
+  builds ccs cur (T O P0 M cs) (T O P0 M (cs ++ map norm_change cl)).
+Proof.
+  intros O P0 M. induction cl as [|c cl IH]; intros cs ccs cur Ht H.
+  - cbn in H. injection H as <-. cbn [map]. rewrite app_nil_r. apply builds_nil.
+  - cbn [forallb] in Ht. apply andb_true_iff in Ht. destruct Ht as [Ht1 Ht2].
+    cbn [flat_map] in H. rewrite collect_app in H.
+    destruct (collect (change_thunks c)) as [c1|] eqn:E1; cbn [bind] in H; [|discriminate].
+    destruct (collect (flat_map change_thunks cl)) as [c2|] eqn:E2; cbn [bind] in H; [|discriminate].
+    injection H as <-. eapply builds_app; [apply B_change; eassumption|].
+    cbn [map]. replace (cs ++ norm_change c :: map norm_change cl) with ((cs ++ [norm_change c]) ++ map norm_change cl)
+      by (rewrite <- app_assoc; reflexivity).
+    apply IH; [exact Ht2 | reflexivity].
+Qed.
+
+Lemma collect_tree_head : forall t cs, tree_calls t = Ok cs ->
+  exists op om ccs, call_preamble (d_pre t) = Ok op /\ call_meta (d_meta t) = Ok om /\
+                    collect (flat_map change_thunks (d_changes t)) = Ok ccs /\
+                    cs = olist op ++ olist om ++ ccs.
+Proof.
+  intros t cs H. unfold tree_calls, tree_thunks in H. rewrite collect_app in H.
+  destruct (call_preamble (d_pre t)) as [op|]; [|discriminate].
+  destruct (call_meta (d_meta t)) as [om|]; [|destruct op as [?|]; discriminate].
+  destruct (collect (flat_map change_thunks (d_changes t))) as [ccs|]; [|destruct op, om; discriminate].
+  exists op, om, ccs. repeat (split; [reflexivity|]).
+  destruct op, om; cbn [bind collect] in H; injection H as <-; reflexivity.
+Qed.
+
+Lemma main_opts_ok : forall t, typed_opts (d_opts t) = true ->
+  dopts_of_options (hopts [(B "encoding", tree_encoding t); (B "version", tree_version t)]) = norm_main_opts t.
+Proof.
+  intros t Ht. apply dopts_of_hopts. forall_ok.
+  - unfold tree_encoding. destruct (assoc_get _ _ _) eqn:G; [right; exact (typed_get _ _ _ Ht G) | left; reflexivity].
+  - right. unfold tree_version. destruct (assoc_get _ _ _) eqn:G; [exact (typed_get _ _ _ Ht G) | vm_compute; reflexivity].
+Qed.
+
+(* the structural theorem: the DOM reader turns the expected records into the normalised tree *)
+Theorem C05_records_to_tree : forall t cs s0,
+  typed_tree t = true -> tree_calls t = Ok cs ->
+  apply_views (new_tree, AtMain) (main_view (tree_encoding t) (tree_version t) :: expected_views s0 AtMain cs)
+  = Ok (normalise t, last_cursor AtMain cs).
+Proof.
+  intros t cs s0 Ht H.
+  destruct (collect_tree_head t cs H) as [op [om [ccs [Hp [Hm [Hc ->]]]]]].
+  unfold typed_tree in Ht. apply andb_true_iff in Ht. destruct Ht as [Ht Ht4]. apply andb_true_iff in Ht.
+  destruct Ht as [Ht Ht3]. apply andb_true_iff in Ht. destruct Ht as [Ht1 Ht2].
+  unfold apply_views, main_view. cbn [map apply_records]. rewrite A_main. cbn [bind new_tree d_pre d_meta d_changes].
+  rewrite (main_opts_ok t Ht1).
+  destruct (B_pre_main (norm_main_opts t) new_msec [] _ _ Ht2 Hp) as [Bp Lp].
+  destruct (B_meta_main (norm_main_opts t) (norm_psec (d_pre t)) [] _ _ Ht3 Hm) as [Bm Lm].
+  pose proof (B_changes (norm_main_opts t) (norm_psec (d_pre t)) (norm_msec (d_meta t)) _ [] ccs AtMain Ht4 Hc) as Bc.
+  assert (Ball : builds (olist op ++ olist om ++ ccs) AtMain (T (norm_main_opts t) new_psec new_msec []) (normalise t)).
+  { eapply builds_app; [exact Bp|]. rewrite Lp. eapply builds_app; [exact Bm|]. rewrite Lm. exact Bc. }
+  apply (Ball s0).
+Qed.
+
+(* ---- C05 assembled ---- *)
+Lemma apply_record_view : forall tc r, apply_record tc r = apply_record tc (view_record (rec_view r)).
+Proof. intros [t cur] [lv ln o id ty p]. reflexivity. Qed.
+
+Lemma apply_records_views : forall rs tc, apply_records tc rs = apply_views tc (map rec_view rs).
+Proof.
+  unfold apply_views. induction rs as [|r rs IH]; intro tc; [reflexivity|].
+  cbn [map apply_records]. rewrite <- apply_record_view.
+  destruct (apply_record tc r); cbn [bind]; [apply IH | reflexivity].
+Qed.
+
+Theorem C05_dom_round_trip : forall orc t b,
+  typed_tree t = true -> dom_write t = Ok b -> reader_returns_expected orc t b ->
+  dom_read orc b = Ok (normalise t).
+Proof.
+  intros orc t b Ht Hw Hr.
+  apply C05_write_is_calls in Hw. destruct Hw as [_ [s0 [cs [s1 [Hi [Hc _]]]]]].
+  destruct (Hr s0 cs Hi Hc) as [rs [E1 E2]].
+  unfold dom_read. rewrite E1, apply_records_views, E2, (C05_records_to_tree t cs s0 Ht Hc). reflexivity.
+Qed.
